@@ -79,6 +79,17 @@ def gen_worklist_cfg(rng, device=None, split_bias=0.5):
         cfg["flavour"] = "deprecated_worklist"
     elif r2 < 0.22:
         cfg["flavour"] = "configured_by_assignment"
+    if rng.random() < 0.25:
+        # the worklist already holds records when the operations under test start (a prelude written by the user)
+        pre = []
+        if cfg["diti_mode"] and rng.random() < 0.7:
+            pre.append({"op": "set_diti", "index": rng.choice([1, 2, 3, 4])})
+        pre += rng.choice([[], [{"op": "comment", "text": "prelude"}], [{"op": "wash", "scheme": rng.choice([1, 2, 3, 4])}],
+                           [{"op": "comment", "text": "prelude"}, {"op": "commit"}]])
+        if pre and pre[0]["op"] != "set_diti" and cfg["diti_mode"] and rng.random() < 0.5:
+            pre += [{"op": "commit"}, {"op": "set_diti", "index": rng.choice([1, 2, 3])}]
+        if pre:
+            cfg["preamble"] = pre
     return cfg
 
 
